@@ -82,6 +82,10 @@ reg = {
         "search": {"overlay": "units/search.ovl", "canaries": ["canary_search"], "helpers": ["key_unchecked", "key", "child_page", "compare"]},
         # the double-ended cursor over the inline values of one multimap key
         "mmiter": {"overlay": "units/mmiter.ovl", "canaries": ["canary_mmiter"], "helpers": ["key_at"]},
+        # the open-tables bookkeeping of a write transaction over a ghost log of catalog operations
+        "tablens": {"overlay": "units/tablens.ovl", "canaries": ["canary_tablens"],
+                    "helpers": ["caller", "get_root", "get", "insert", "remove", "is_empty", "get_or_create_table", "clear_pending_table_update",
+                                "rename_table", "delete_table", "stage_update_table_root", "set_root"]},
         "types_sep": {"overlay": "units/types_sep.ovl", "canaries": ["canary_types_sep"], "helpers": ["common_prefix_len"]},
         # the page-level checksum walk over an abstract page store
         "merkle": {"overlay": "units/merkle.ovl", "canaries": ["canary_merkle"],
@@ -260,10 +264,12 @@ P["C15"] = {
     "not_decided": "user-defined Key impls; uuid/chrono (optional features); variable-width composites beyond the stated bounds",
 }
 P["C17"] = {
-    "level": "other",
+    "level": "proof",
+    "verus": [{"unit": "tablens", "functions": ["TableNamespace::*"]}],
     "kani": [K["C17-K1"]],
-    "explanation": "Kernel: InternalTableDefinition::check_match::<u64,&str> returns Ok iff kind, alignments, key/value type names and fixed widths all agree, and each mismatch yields the corresponding TableError variant (bounded: type names from a pool).",
-    "not_decided": "catalog behaviour over operation sequences: open/rename/delete/list, 'open at most once', storage release",
+    "assumptions": ["N1 (tablens unit): the catalog tree (TableTreeMut) is modelled by a ghost log of the operations that reach it, and get_or_create_table never reports TableAlreadyOpen itself; the map of open tables is modelled by the set of its keys (BTreeMap get / insert / remove / is_empty)"],
+    "explanation": "Kernel: (V) the REAL open-table bookkeeping of a write transaction (TableNamespace::inner_open / inner_rename / inner_delete / close_table / close_table_without_update / set_root): a table that is already open is refused with TableAlreadyOpen without consulting or changing anything; otherwise the catalog is consulted exactly once and the name is marked open exactly when the open succeeded - a refused open (wrong type, storage error) leaves the set of open tables as it was; an open table can be neither renamed nor deleted (the catalog is not touched); closing releases exactly that name and stages the table root for the commit. (K) InternalTableDefinition::check_match::<u64,&str> returns Ok iff kind, alignments, key/value type names and fixed widths all agree, and each mismatch yields the corresponding TableError variant (bounded: type names from a pool).",
+    "not_decided": "what the catalog tree itself does (TableTreeMut::get_or_create_table / rename_table / delete_table / list: B-tree operations), release of a deleted table's pages, the typed wrappers around inner_open (Table::new, set_dirty), system tables",
 }
 json.dump(reg, open("/verif/obligations.json", "w"), indent=1)
 print("properties:", sorted(P))
